@@ -5,7 +5,7 @@ import pickle
 import numpy as np
 from hypothesis import strategies as st
 
-from .. import gen, norm, states
+from .. import gen, norm, states, walk
 from ..common import lib
 from ..core import require
 from ..spec import kinds, walk_spec
@@ -67,6 +67,7 @@ def check(case):
     d = norm.diff(d0, doc(h), norm.BITEXACT)
     require(not d, "dumps-mutated-original", lambda: f"pickle.dumps changed the original: {norm.fmt(d)}")
     clone = pickle.loads(blob)
+    walk.require_views(clone, "the pickle clone")
     require(clone is not h, "clone-is-original", "pickle.loads returned the original object")
     d = norm.diff(d0, doc(clone), norm.BITEXACT)
     require(not d, "clone-content-differs", lambda: f"clone document differs: {norm.fmt(d)}")
